@@ -132,3 +132,8 @@ package keystore
 //@   loop#4 invariant nextIndex <= i && unusedFrom(accountID, ExternalBranch, nextIndex, mathint(i))
 //@   at "if nextIndex < hdpath.InternalChildNum {..." assert[C12] forall qj_ uint32 :: nextIndex <= qj_ && mathint(qj_) < mathint(nextIndex) + mathint(addressGapLimit) && qj_ < 4294967295 ==> !ghostb("scriptUsed", ghosts("shOfPath", accountID, InternalBranch, qj_))
 //@   at "if nextIndex < hdpath.ExternalChildNum {..." assert[C12] forall qj_ uint32 :: nextIndex <= qj_ && mathint(qj_) < mathint(nextIndex) + mathint(addressGapLimit) && qj_ < 4294967295 ==> !ghostb("scriptUsed", ghosts("shOfPath", accountID, ExternalBranch, qj_))
+
+// drops the cached private keys of every managed keystore (touches only the keystores' own key caches)
+//@ func (*KeystoreManager).ClearPrivKey
+//@   trusted
+//@   requires km != nil
